@@ -52,6 +52,12 @@ TABLE = {
  'C15': (MC, 'TLC graph walk of a two-directory model (spec/Copy.tla) + archive table (spec/Archive.tla)',
          'TLC checks Independent and Faithful on the source/copy model; paths of its graph (copy with dtype None or a target type, chunklen None/1/2, sources of length 0-2 with/without metadata, then append/truncate/assign/metadata/delete on either side) are replayed on Arrays and RaggedArrays (zero-length subarrays, ragged arrays without subarrays) and both directories re-read after every step; every archive case (kind x xz/gz/bz2 x overwrite x pre-existing archive x given path) is extracted with tarfile, compared byte for byte with the directory and reopened.',
          'NumPy reference for astype; target types rotate over the 13 types x 2 byte orders.', '7 C15'),
+ 'C16': (MC, 'TLC-evaluated verdict tables (spec/DirTree.tla) replayed on materialised trees',
+         'TLC enumerates every delete case (delete_array / delete_raggedarray x target kind x foreign content kind incl. symlinks and names colliding with Darr file names x location top/values/indices x object/str/Path) and every creation case (asarray, create_array, asraggedarray, create_raggedarray, Array.copy, RaggedArray.copy, archive x previous occupant x overwrite x str/Path) with the verdict the property demands; each is materialised and executed with recursive byte snapshots of the path, its parent and the symlink targets; exception class, survival of foreign entries, nothing-remains-after-delete and read-back of the new occupant are compared.',
+         'Finite enumeration, complete in both tiers.', '7 C16'),
+ 'C20': (MC, 'TLC-evaluated path-spelling semantics (spec/DirTree.tla Lex/OsOk/Protected) replayed on DataDir',
+         'TLC enumerates spellings (sequences of ., .., empty component, protected name, sub-directory, file in a sub-directory, user file, missing name, own directory name) and evaluates the lexical target, whether the OS can walk it, and the verdict Refused / OsError / Allowed; every row x 12 public writers (write_txt, write_jsonfile, write_jsondict, update_jsondict, delete_files, open_file in 7 modes) x str / Path / absolute form x overwrite is executed with a recursive byte snapshot; user-file effects follow the TLC table EffectRows; plus write/read round trips of unicode JSON dicts and text.',
+         'Spellings up to 3 components quick / 4 thorough; symlinked user files are outside the property.', '7 C20'),
 }
 NA = {}
 def main():
